@@ -393,7 +393,7 @@ pub fn oracle(case: &Case, st: &mut Stats) -> Result<(), String> {
     }
 }
 
-fn decode_utf8_case(s: &mut Src) -> Case {
+pub fn decode_utf8_case(s: &mut Src) -> Case {
     let mut b = bytes::gen_utf8ish(s, 40);
     if s.chance(12) && !b.is_empty() {
         // long input: crosses the 4 KiB buffer of read_from at an arbitrary phase
@@ -506,7 +506,7 @@ fn gen_enc_bytes_short(s: &mut Src, label: &str, n: usize) -> Vec<u8> {
     out
 }
 
-fn decode_enc_case(s: &mut Src) -> Case {
+pub fn decode_enc_case(s: &mut Src) -> Case {
     let label = *s.pick(LABELS);
     let mut b = gen_enc_bytes(s, label);
     if s.chance(50) {
